@@ -295,6 +295,21 @@ func faultSites(repo, outDir string) error {
 		fmt.Fprintf(&sb, "  %s%s\n", fsStr(h), fsComma(i, len(heads)))
 	}
 	fmt.Fprintf(&sb, "]\n\n/-- number of engine-method call expressions found by an independent sweep (must equal engineCalls.length) -/\ndef engineCallExprs : Nat := %d\n", total)
+	steps, err := payloadSteps(repo)
+	if err != nil {
+		return err
+	}
+	sb.WriteString("\n/-- the call of ProcessExecutionPayload in a fork's `ProcessBlock`: `guards` are the callee names of the calls in the\n    conditions of every enclosing `if`/`else if` other than the call's own `if err := …; err != nil` (empty = the payload\n    step runs unconditionally); calls = how many such calls the function contains -/\n")
+	sb.WriteString("structure PayloadStep where\n  pkg : String\n  calls : Nat\n  guards : List String\n  deriving Repr, DecidableEq\n\n")
+	sb.WriteString("def payloadSteps : List PayloadStep := [\n")
+	for i, st := range steps {
+		var gs []string
+		for _, g := range st.guards {
+			gs = append(gs, fsStr(g))
+		}
+		fmt.Fprintf(&sb, "  ⟨%s, %d, [%s]⟩%s\n", fsStr(st.pkg), st.calls, strings.Join(gs, ", "), fsComma(i, len(steps)))
+	}
+	sb.WriteString("]\n")
 	sb.WriteString("\nend Zrnt.Gen.FaultSites\n")
 	return writeIfChanged(filepath.Join(outDir, "FaultSites.lean"), sb.String())
 }
@@ -360,4 +375,118 @@ func countEngineCalls(repo string) (int, error) {
 		}
 	}
 	return n, nil
+}
+
+
+type payloadStepRow struct {
+	pkg    string
+	calls  int
+	guards []string
+}
+
+// payloadSteps: for bellatrix, capella and deneb, where `(*BeaconStateView).ProcessBlock` calls ProcessExecutionPayload and
+// under which conditions (the specification: bellatrix only `if is_execution_enabled`, from capella on unconditionally).
+func payloadSteps(repo string) ([]payloadStepRow, error) {
+	var out []payloadStepRow
+	for _, pkg := range []string{"bellatrix", "capella", "deneb"} {
+		path := filepath.Join(repo, "eth2/beacon", pkg, "transition.go")
+		fset := token.NewFileSet()
+		f, err := parser.ParseFile(fset, path, nil, 0)
+		if err != nil {
+			return nil, err
+		}
+		row := payloadStepRow{pkg: pkg}
+		for _, d := range f.Decls {
+			fd, ok := d.(*ast.FuncDecl)
+			if !ok || fd.Name.Name != "ProcessBlock" || fd.Recv == nil || fd.Body == nil {
+				continue
+			}
+			// walk with the stack of enclosing if-conditions
+			initDefined := map[string]bool{}
+			var walk func(n ast.Node, conds []ast.Expr)
+			walkBlock := func(b *ast.BlockStmt, conds []ast.Expr) {
+				for _, st := range b.List {
+					walk(st, conds)
+				}
+			}
+			walk = func(n ast.Node, conds []ast.Expr) {
+				switch x := n.(type) {
+				case *ast.IfStmt:
+					own := false
+					if as, ok := x.Init.(*ast.AssignStmt); ok && len(as.Rhs) == 1 {
+						if c, ok := as.Rhs[0].(*ast.CallExpr); ok && fsCalleeName(c) == "ProcessExecutionPayload" {
+							own = true
+							row.calls++
+							for _, cnd := range conds {
+								ast.Inspect(cnd, func(y ast.Node) bool {
+									if cc, ok := y.(*ast.CallExpr); ok {
+										row.guards = append(row.guards, fsCalleeName(cc))
+									}
+									return true
+								})
+								if _, isCall := cnd.(*ast.CallExpr); !isCall && !fsContainsAnyCall(cnd) {
+									// a plain result variable of an enclosing `if v, err := Call(…)` is that call's verdict
+									if id, ok := cnd.(*ast.Ident); ok && initDefined[id.Name] {
+										continue
+									}
+									row.guards = append(row.guards, "<condition without call>")
+								}
+							}
+						}
+					}
+					inner := conds
+					if !own {
+						// the condition of this if (including what its init statement computes) guards both branches
+						c := ast.Expr(x.Cond)
+						if as, ok := x.Init.(*ast.AssignStmt); ok && len(as.Rhs) == 1 {
+							if call, ok := as.Rhs[0].(*ast.CallExpr); ok {
+								c = call
+								for _, l := range as.Lhs {
+									if id, ok := l.(*ast.Ident); ok {
+										initDefined[id.Name] = true
+									}
+								}
+							}
+						}
+						inner = append(append([]ast.Expr{}, conds...), c)
+					}
+					walkBlock(x.Body, inner)
+					if x.Else != nil {
+						switch el := x.Else.(type) {
+						case *ast.BlockStmt:
+							walkBlock(el, inner)
+						case *ast.IfStmt:
+							walk(el, inner)
+						}
+					}
+				case *ast.BlockStmt:
+					walkBlock(x, conds)
+				case *ast.ForStmt:
+					walkBlock(x.Body, append(append([]ast.Expr{}, conds...), ast.NewIdent("loop")))
+				case *ast.RangeStmt:
+					walkBlock(x.Body, append(append([]ast.Expr{}, conds...), ast.NewIdent("loop")))
+				case *ast.ExprStmt, *ast.AssignStmt, *ast.ReturnStmt:
+					// a call in any other position than `if err := ProcessExecutionPayload(…); err != nil` is an unknown shape
+					if fsContainsCall(x, "ProcessExecutionPayload") {
+						row.calls++
+						row.guards = append(row.guards, "<unknown call shape>")
+					}
+				}
+			}
+			walkBlock(fd.Body, nil)
+		}
+		out = append(out, row)
+	}
+	return out, nil
+}
+
+func fsContainsAnyCall(n ast.Node) bool {
+	found := false
+	ast.Inspect(n, func(x ast.Node) bool {
+		if _, ok := x.(*ast.CallExpr); ok {
+			found = true
+		}
+		return !found
+	})
+	return found
 }
